@@ -5,6 +5,8 @@ Import ListNotations.
 Open Scope bool_scope.
 Open Scope Z_scope.
 
+Module BytesM.
+
 Definition byte := Z.
 Definition str := list Z.
 Definition rune := Z.
@@ -21,3 +23,6 @@ Fixpoint str_eqb (a b : str) : bool :=
   | x :: a', y :: b' => (x =? y) && str_eqb a' b'
   | _, _ => false
   end.
+
+End BytesM.
+Export BytesM.
